@@ -172,6 +172,76 @@ func mayMutatePlace(e Expr) bool {
 // Hazards returns the hazard tags of a program (sorted, unique).
 func Hazards(p *Program) []string {
 	tags := map[string]bool{}
+	// function literals that read variables of the function which creates them
+	top := map[string]bool{}
+	for _, m := range p.Modules {
+		for _, g := range m.Globals {
+			top[g.Name] = true
+		}
+		for _, f := range m.Funcs {
+			top[f.Name] = true
+		}
+		for _, s := range m.Singletons {
+			top[s.Name] = true
+		}
+	}
+	WalkProgram(p, func(e Expr) {
+		lit, ok := e.(FnLit)
+		if !ok {
+			return
+		}
+		own := map[string]bool{}
+		for _, pa := range lit.Params {
+			own[pa.Name] = true
+		}
+		var declared func(b *Block)
+		declared = func(b *Block) {
+			if b == nil {
+				return
+			}
+			for _, s := range b.Stmts {
+				switch s := s.(type) {
+				case Let:
+					own[s.Name] = true
+				case For:
+					own[s.Name] = true
+				}
+				WalkStmt(s, func(x Expr) {
+					if t, ok := x.(Try); ok {
+						own[t.Name] = true
+					}
+					if l, ok := x.(FnLit); ok {
+						for _, pa := range l.Params {
+							own[pa.Name] = true
+						}
+					}
+					_, blocks := Children(x)
+					for _, bb := range blocks {
+						declared(bb)
+					}
+				})
+				switch s := s.(type) {
+				case Loop:
+					declared(s.Body)
+				case While:
+					declared(s.Body)
+				case For:
+					declared(s.Body)
+				}
+			}
+		}
+		declared(lit.Body)
+		WalkBlock(lit.Body, func(x Expr) {
+			if t, ok := x.(Try); ok {
+				own[t.Name] = true
+			}
+		})
+		WalkBlock(lit.Body, func(x Expr) {
+			if v, ok := x.(Var); ok && !own[v.Name] && !top[v.Name] {
+				tags["closure-capture"] = true
+			}
+		})
+	})
 	WalkProgram(p, func(e Expr) {
 		var ops []Expr
 		switch e := e.(type) {
@@ -397,7 +467,7 @@ func Hazards(p *Program) []string {
 		}
 	}
 	var out []string
-	for _, k := range []string{"operand-alias", "side-effect-args", "for-live-list"} {
+	for _, k := range []string{"operand-alias", "side-effect-args", "for-live-list", "closure-capture"} {
 		if tags[k] {
 			out = append(out, k)
 		}
